@@ -192,7 +192,7 @@ def jobs(pid, tier):
                          need_outcomes=['loaded:fresh_dict']))
     if pid == 'C13':
         J.append(Job('image', dict(N=4, L=2, styles=['names']), need_outcomes=['returned:preimage', 'returned:image']))
-        J.append(Job('image', dict(N=3, L=2, styles=['levels']), need_outcomes=['returned:preimage', 'returned:image']))
+        J.append(Job('image', dict(N=3, L=2, styles=['levels', 'autoref']), need_outcomes=['returned:preimage', 'returned:image']))
         J.append(Job('image', dict(N=4, L=4, which=['preimage'], minpairs=2, maxpairs=2, styles=['levels'],
                                qsets='values', foralls=[0], forward_only=q),
                      need_outcomes=['returned:preimage']))
